@@ -41,6 +41,10 @@ CLAIMED = {
             "deterministic simulation: seeded transaction streams compressed into one fault-injecting registry context (failing / pending / cancelled calls, key wrap-around, eviction, rollback and retry), decompressed block-wise against versioned snapshots in a seeded poll interleaving, judged field by field against the skip/restore contract",
             "Seeded search over streams of 8–64 transactions of all six kinds sharing one registry whose key cursors wrap within the run; every acknowledged transaction is decompressed against the snapshot of its block and compared (kind, witnesses, predicate_gas_used, all fields with the 23 compress(skip) field sites defaulted or restored, canonical bytes, id). Sampling, not enumeration: a clean batch is evidence, not proof.",
             "Trusted: the simulator's registry (eviction policy, keep-keys per block, default-key shortcut), its chain tables and its context-side decompression of Coin/Message/Mint (these impls live in the embedder, not in this repository), the hand-written expected(t) table of skip sites, the (k+1) mod (2^24-1) successor model, postcard."),
+    "C20": ("pred", "DESIGN.md §6 C20, §4.2",
+            "deterministic simulation: one signed transaction with generator-known truth per input behind a seeded ParallelExecutor / VmMemoryPool / fault-injecting blob store; estimate→verify, sequential-vs-parallel under 8/64 schedules, exact gas ±1, tampering in transit, independent secp256k1 authorization oracle",
+            "Seeded search over transactions (signed and predicate inputs from a 14-production predicate grammar with known truth values), executor schedules (start order × result order × pooled-memory state × Pending polls), blob-store errors, moved block height, declared-gas ±1 and tampered re-decoded copies, all against the real into_checked_basic / check_signatures / check_predicates(_async) / estimate_predicates(_async). Sampling, not enumeration: a clean batch is evidence, not proof.",
+            "Trusted: the generator's truth values (template programs), transaction id computation and secp256k1 recovery (C03/C17 out of scope). 'Estimation Ok implies verification Ok' is asserted only for transactions whose predicates are true by construction (the code and its tests deliberately let estimation succeed on failing predicates). Which failing predicate an error names is not compared."),
 }
 
 SMT_NOTE = "Trusted: the ~150-line compact-SMT reference (root/prove/verify by recursion on the bit index), SimKV's crash model (one atomic batch per completed tree operation), SHA-256 from the sha2 crate, collision resistance."
